@@ -695,7 +695,7 @@ def _run(rec, seed, budget, shard, nshards, group):
 
 
 def tasks(tier):
-    return [Task(g, _run, quick=16 * 500, thorough=16 * 60000, group=g)
+    return [Task(g, _run, quick=16 * 500, thorough=16 * 25000, group=g)
             for g in PROPS]
 
 
